@@ -107,7 +107,7 @@ impl Property for C01 {
                         // one qualifier only (priority order), so that signatures stay canonical
                         let qual = if class.contains("repeated-var") {
                             ""
-                        } else if sets.st.used_env && case.program.traits.iter().any(|t| t.extra > 0) {
+                        } else if sets.st.used_env && env_existential(&case.program) {
                             ":env-with-trait-params"
                         } else if sets.st.co_cycle || (program_has_co_cycle(&case.program) && !goal_is_closed(g)) {
                             ":coinductive-cycle"
